@@ -408,6 +408,10 @@ class WorkerController:
                     self.notify_inproc("errordown", node=self, error=err)
                     self._down = True
                 return
+            if self._down:
+                # written off after an undecodable message: nothing it still
+                # sends concerns the controller
+                return
             eventname, kwargs = eventcall
             if eventname in ("collectionstart",):
                 self.log(f"ignoring {eventname}({kwargs})")
@@ -465,6 +469,7 @@ class WorkerController:
             self.config.notify_exception(excinfo)
             self.shutdown()
             self.notify_inproc("errordown", node=self, error=excinfo)
+            self._down = True
 
 
 def unserialize_warning_message(data: dict[str, Any]) -> warnings.WarningMessage:
